@@ -682,7 +682,7 @@ next:
 			if prevNonComment != nil {
 				if r, ok := rule.Data.(*css_ast.RSelector); ok {
 					if prev, ok := prevNonComment.(*css_ast.RSelector); ok && css_ast.RulesEqual(r.Rules, prev.Rules, nil) &&
-						isSafeSelectors(r.Selectors) && isSafeSelectors(prev.Selectors) {
+						isSafeSelectors(r.Selectors) && isSafeSelectors(prev.Selectors) && !containsNestedRules(r.Rules) {
 					nextSelector:
 						for _, sel := range r.Selectors {
 							for _, prevSel := range prev.Selectors {
@@ -932,6 +932,20 @@ var nonDeprecatedElementsSupportedByIE7 = map[string]bool{
 //
 // This considers IE 7 and above to be a browser that a user could possibly use.
 // Versions of IE less than 6 are not considered.
+// Merging "a { b { color: red } } #c { b { color: red } }" into "a, #c { b {
+// color: red } }" is not safe because the nested rule then matches with the
+// specificity of ":is(a, #c)", which is that of "#c" even for an "a" element.
+func containsNestedRules(rules []css_ast.Rule) bool {
+	for _, rule := range rules {
+		switch rule.Data.(type) {
+		case *css_ast.RDeclaration, *css_ast.RBadDeclaration, *css_ast.RComment:
+		default:
+			return true
+		}
+	}
+	return false
+}
+
 func isSafeSelectors(complexSelectors []css_ast.ComplexSelector) bool {
 	for _, complex := range complexSelectors {
 		for _, compound := range complex.Selectors {
